@@ -154,6 +154,21 @@ func loadProgView(root string, bc BuildConfig, inline bool) (*Prog, error) {
 			}
 		}
 	}
+	// instances of the module's generic functions that module code calls: each has a body of its own,
+	// with the type arguments in place
+	for i := 0; i < len(P.Funcs); i++ {
+		for _, b := range P.Funcs[i].Blocks {
+			for _, in := range b.Instrs {
+				ci, ok := in.(ssa.CallInstruction)
+				if !ok {
+					continue
+				}
+				if g := ci.Common().StaticCallee(); g != nil && g.Origin() != nil && g.Origin() != g && seen[g.Origin()] {
+					add(g)
+				}
+			}
+		}
+	}
 	sort.Slice(P.Funcs, func(i, j int) bool {
 		a, b := P.Funcs[i], P.Funcs[j]
 		if a.Pos() != b.Pos() {
@@ -202,6 +217,9 @@ func (p *Prog) InModule(fn *ssa.Function) bool {
 	if pk == nil {
 		if e := p.encl[fn]; e != nil {
 			return p.InModule(e)
+		}
+		if o := fn.Origin(); o != nil && o != fn {
+			return p.InModule(o)
 		}
 		return false
 	}
